@@ -235,6 +235,25 @@ func (c *ctx) ttl() {
 		mal("5"+string([]byte{ch}), "unknown-unit")
 		mal("200"+string([]byte{ch}), "unknown-unit")
 	}
+	// TTL strings the system itself hands out (the filer's seconds -> volume TTL conversion,
+	// sent to the master in assign requests) must be valid encodings that decode back to
+	// themselves; whether the TTL is long enough is C09's business, not checked here.
+	r.Case("ttl-strings-handed-out")
+	handedOut := 0
+	for sec := int32(1); sec <= 200000; sec++ {
+		str := needle.SecondsToTTL(sec)
+		if str == "" {
+			continue
+		}
+		handedOut++
+		t, err := needle.ReadTTL(str)
+		r.Eval(1)
+		if err != nil || t == nil || t.String() != str {
+			c.viol(lib.Sig{"op": "ttl-string-handed-out", "class": "does-not-decode-back"}, map[string]interface{}{"seconds": sec, "string": str, "err": fmt.Sprint(err), "back": fmt.Sprint(t)})
+			break
+		}
+	}
+	r.Count("ttl_strings_handed_out_checked", int64(handedOut))
 }
 
 // ---------------------------------------------------------------- super block
